@@ -669,8 +669,9 @@ class Ldiw(PseudoAvrInstruction):
     syntax = Syntax(["ldiw", " ", rd, ",", " ", nk])
 
     def render(self):
-        lb = self.nk & 0xFF
-        hb = (self.nk >> 8) & 0xFF
+        nk = wrap_negative(self.nk, 16)
+        lb = nk & 0xFF
+        hb = (nk >> 8) & 0xFF
         yield Ldi(self.rd.lo, lb)
         yield Ldi(self.rd.hi, hb)
 
